@@ -1124,3 +1124,67 @@ func ruleVarintLadder(e *Engine, r *Report, fnKey string) {
 	r.check(ok && n > 0, "TBL-codec-varint", short(fnKey)+" sizes varints by 7-bit groups", pos,
 		"width boundaries are multiples of 7 bits", "the varint sizing helper compares with / shifts by a constant that is not a 7-bit group boundary: values in the affected band are sized one byte short of what the encoder writes")
 }
+
+// ruleDecodeOwnsBytes (OWN-decode-copy): a decoder of a persisted/wire type
+// never stores a re-slice of its input buffer into the decoded value: input
+// buffers are reused by the transport and the log stores, and the decoded
+// value outlives them. accept lists functions confirmed by reading to alias
+// on purpose (callers own the buffer for the value's lifetime).
+func ruleDecodeOwnsBytes(e *Engine, r *Report, minInst int, accept map[string]string, pkgs ...string) {
+	n := 0
+	for _, fn := range e.ScopeFuncs() {
+		p := fnPkg(fn)
+		if p == nil || len(fn.Blocks) == 0 {
+			continue
+		}
+		in := false
+		for _, rel := range pkgs {
+			if e.pkgTypes(rel) == p {
+				in = true
+			}
+		}
+		if !in || !strings.Contains(strings.ToLower(fn.Name()), "unmarshal") {
+			continue
+		}
+		var buf *ssa.Parameter
+		for _, q := range fn.Params {
+			if s, ok := q.Type().Underlying().(*types.Slice); ok {
+				if b, ok := s.Elem().Underlying().(*types.Basic); ok && b.Kind() == types.Byte {
+					buf = q
+				}
+			}
+		}
+		if buf == nil {
+			continue
+		}
+		n++
+		var bad ssa.Instruction
+		forEachInstr(fn, func(x ssa.Instruction) {
+			st, ok := x.(*ssa.Store)
+			if !ok {
+				return
+			}
+			if _, isF := st.Addr.(*ssa.FieldAddr); !isF {
+				return
+			}
+			sl, ok := st.Val.(*ssa.Slice)
+			if !ok {
+				return
+			}
+			if stripConv(sl.X) == ssa.Value(buf) {
+				bad = x
+			}
+		})
+		key := fname(fn) + " copies decoded byte fields"
+		if bad != nil {
+			if reason, ok := accept[fname(fn)]; ok {
+				r.add(Ob{Rule: "OWN-decode-copy", Construct: key, Pos: e.ipos(bad), OK: true, Detail: "accepted (confirmed by reading): " + reason})
+				continue
+			}
+			r.bad("OWN-decode-copy", key, e.ipos(bad), "a decoded field is a re-slice of the input buffer: the transport and the log stores reuse that buffer, the decoded value changes under its holder")
+			continue
+		}
+		r.ok("OWN-decode-copy", key, e.pos(fn.Pos()), "no field of the decoded value aliases the input buffer")
+	}
+	r.floor("OWN-decode-copy", n, minInst)
+}
